@@ -28,16 +28,24 @@ Section Chain.
 Variables L N : nat.
 Variables lz relay : bool.
 Variables ft fp c : nat.
+(* cmode = true: no stage fails (ft = L); the consumer raises cx / closes the iterator (ccl) while handling chunk ck *)
+Variable cmode : bool.
+Variables (ck : nat) (ccl : bool) (cx : nat).
 Variable nt : net.
 Hypothesis HL : 1 <= L.
-Hypothesis Hft : ft < L.
+Hypothesis Hft : ft <= L.
 Hypothesis Hfp : fp <= N.
-Hypothesis Hfault : n_fault nt = Some (ft, fp, c).
-Hypothesis Hcf : n_cfault nt = None.
+Hypothesis Hfault : forall i k, i < L -> fault_at nt i k = if (ft =? i) && (fp =? k) then Some c else None.
+Hypothesis Hcf : n_cfault nt = if cmode then Some (ck, ccl, cx) else None.
+Hypothesis Hmode :
+  if cmode then ft = L /\ ck < N /\ c = (if ccl then (if relay then C_OUTSIDE else C_GENEXIT) else cx) /\ n_f1 nt = true
+  else True.
 Hypothesis Hkill : n_kill nt <> [].
+Hypothesis Hjoin : forall x, In x (n_join nt) -> x <> L.
+Hypothesis Hsav : n_savers nt = [].
 
-Lemma fault_at_spec i k : fault_at nt i k = if (ft =? i) && (fp =? k) then Some c else None.
-Proof. unfold fault_at. rewrite Hfault. reflexivity. Qed.
+Lemma fault_at_spec i k : i < L -> fault_at nt i k = if (ft =? i) && (fp =? k) then Some c else None.
+Proof. apply Hfault. Qed.
 
 (* ---------- the static shape ---------- *)
 Definition stage_sig (i : nat) : tkind * list (nat * nat) :=
@@ -114,7 +122,8 @@ Definition head_no (t : thread) : nat := r_next (cur_r t) - length (r_buf (cur_r
 
 Definition Tok (i : nat) (t : thread) : Prop :=
   t_fi t = 0 /\ t_nstop t = 0 /\
-  (i = L -> t_pc t = PRead \/ t_pc t = PReadWait) /\
+  (i = L -> (t_pc t = PRead \/ t_pc t = PReadWait) /\ t_cnt t = r_next (cur_r t) /\ (cmode = true -> t_cnt t <= ck) /\
+           t_rows t = zs (t_cnt t)) /\
   (i < L ->
      match t_pc t with
      | PGate _ | PGateWait _ | PSend _ _ _ | PSendWait _ _ _ | PDone | PDead _ => True
@@ -127,13 +136,15 @@ Definition Tok (i : nat) (t : thread) : Prop :=
      (1 <= i -> match t_pc t with
                 | PGate _ | PGateWait _ | PRead | PReadWait | PSend _ _ false | PSendWait _ _ false =>
                     t_cnt t = head_no t /\ head_no t <= N
+                | PSend _ _ true | PSendWait _ _ true => r_next (cur_r t) = S N
                 | _ => True
                 end)).
 
 Definition Inv (st : nstate) : Prop :=
   shape st /\
   (forall j, j < L -> Mok j (get_mb st j) /\ Sok (get_mb st j) (get_th st j) /\ Rok (get_mb st j) (get_th st (S j))) /\
-  (forall i, i <= L -> Tok i (get_th st i)).
+  (forall i, i <= L -> Tok i (get_th st i)) /\
+  (forall j, S j < L -> mb_closed (get_mb st (S j)) = true -> mb_closed (get_mb st j) = true).
 
 (* none of these looks at the woken flag *)
 Lemma Sok_weq m s s' : weq s s' -> Sok m s -> Sok m s'.
@@ -185,7 +196,7 @@ Proof.
     destruct (Nat.eq_dec k N) as [EkN | EkN].
     + (* the end marker *)
       rewrite EkN in Hbuf. rewrite msgs_S_stop in Hbuf. injection Hbuf as -> ->. cbn in *.
-      unfold stage_end. cbn. rewrite fault_at_spec.
+      unfold stage_end. cbn. rewrite fault_at_spec by lia.
       destruct ((ft =? S i) && (fp =? cnt)) eqn:Ef; cbn.
       * unfold Tok, Sok, head_no, cur_r; cbn.
         repeat split; intros; auto; try lia; try discriminate; try congruence.
@@ -200,7 +211,7 @@ Proof.
     + (* a data chunk *)
       assert (Hlt : k < N) by lia.
       rewrite (msgs_S_data N k (length rest) Hlt) in Hbuf. injection Hbuf as -> Hrest. cbn.
-      unfold stage_compute. cbn. rewrite fault_at_spec.
+      unfold stage_compute. cbn. rewrite fault_at_spec by lia.
       destruct ((ft =? S i) && (fp =? cnt)) eqn:Ef; cbn.
       * unfold Tok, Sok, head_no, cur_r; cbn.
         repeat split; intros; auto; try lia; try discriminate; try congruence.
@@ -230,14 +241,14 @@ Proof.
   destruct t as [kind pc0 wk rd fi nstop val cnt rows cl ex got]. cbn in *. subst kind rd fi nstop.
   unfold consume. cbn [t_kind t_rd]. unfold source_produce. cbn [t_cnt].
   destruct (cnt <? N) eqn:Ec.
-  - apply Nat.ltb_lt in Ec. unfold stage_compute. cbn. rewrite fault_at_spec.
+  - apply Nat.ltb_lt in Ec. unfold stage_compute. cbn. rewrite fault_at_spec by lia.
     destruct ((ft =? 0) && (fp =? cnt)) eqn:Ef; cbn.
     + unfold Tok, Sok; cbn. repeat split; intros; auto; try lia; try discriminate; try congruence.
     + apply andb_false_iff in Ef. unfold Tok, Sok; cbn.
       repeat split; intros; auto; try lia; try discriminate; try congruence.
       all: try (destruct Ef as [Ef | Ef]; apply Nat.eqb_neq in Ef; lia).
       all: try (destruct (H0 H1) as [E1 E2]; rewrite E1; try apply MS_data; auto).
-  - apply Nat.ltb_ge in Ec. unfold stage_end. cbn. rewrite fault_at_spec.
+  - apply Nat.ltb_ge in Ec. unfold stage_end. cbn. rewrite fault_at_spec by lia.
     destruct ((ft =? 0) && (fp =? cnt)) eqn:Ef; cbn.
     + unfold Tok, Sok; cbn. repeat split; intros; auto; try lia; try discriminate; try congruence.
     + apply andb_false_iff in Ef.
@@ -247,35 +258,90 @@ Proof.
       all: try (destruct (H0 H1) as [E1 E2]; rewrite E1; try (replace cnt with N by lia; apply MS_stop); auto).
 Qed.
 
-(* the caller taking data chunks *)
-Lemma main_loop ms : forall t,
-  t_kind t = KMain relay -> t_fi t < length (t_rd t) -> Forall (fun m => is_stop m = false) ms ->
-  let t' := sink_loop nt L t ms in
-  t_pc t' = PRead /\ t_fi t' = t_fi t /\ t_nstop t' = t_nstop t /\ cur_r t' = r_set_buf (cur_r t) [].
-Proof.
-  induction ms as [|m rest IH]; intros t Hk Hfi Hall; cbn [sink_loop].
-  - cbn. repeat split; auto. unfold cur_r, set_cur_r. cbn. apply nth_upd_eq. auto.
-  - inversion Hall as [|x y Hm Hrest]; subst.
-    set (tb := set_cur_r t (r_set_buf (cur_r t) rest)).
-    assert (Hcur : cur_r tb = r_set_buf (cur_r t) rest).
-    { unfold tb, cur_r, set_cur_r. cbn. apply nth_upd_eq. auto. }
-    assert (Hsd : forall v, sink_data nt L tb v = (add_row tb v, true)).
-    { intros v. unfold sink_data. replace (t_kind tb) with (KMain relay) by (symmetry; exact Hk).
-      unfold cfault_at. rewrite Hcf. reflexivity. }
-    assert (Hgo : forall v, let t' := sink_loop nt L (add_row tb v) rest in
-               t_pc t' = PRead /\ t_fi t' = t_fi t /\ t_nstop t' = t_nstop t /\ cur_r t' = r_set_buf (cur_r t) []).
-    { intros v. destruct (IH (add_row tb v)) as [H1 [H2 [H3 H4]]]; auto.
-      - cbn. rewrite upd_length. auto.
-      - cbn zeta. rewrite H1, H2, H3, H4. repeat split; auto.
-        change (cur_r (add_row tb v)) with (cur_r tb). rewrite Hcur. reflexivity. }
-    destruct m as [v | w v | ]; cbn in Hm; try discriminate; rewrite Hsd; apply Hgo.
-Qed.
+(* the caller taking data chunks numbered a .. a+len-1: it takes them all, or the consumer's failure fires *)
+Lemma cmode_cases : {cmode = true} + {cmode = false}.
+Proof. destruct cmode; auto. Qed.
 
-Lemma msgs_nonstop a len : a + len <= N -> Forall (fun m => is_stop m = false) (msgs N a len).
+Lemma main_loop len : forall a t,
+  t_kind t = KMain relay -> t_fi t < length (t_rd t) -> t_cnt t = a -> t_rows t = zs a -> a + len <= S N -> a <= N ->
+  (cmode = false -> ft < L -> a + len <= N) -> (cmode = true -> a <= ck) ->
+  let t' := sink_loop nt L t (msgs N a len) in
+  (t_pc t' = PRead /\ t_cnt t' = a + len /\ (cmode = true -> a + len <= ck) /\
+   t_fi t' = t_fi t /\ t_nstop t' = t_nstop t /\ cur_r t' = r_set_buf (cur_r t) [] /\ t_rows t' = zs (a + len) /\
+   a + len <= N) \/
+  (exists e, t_pc t' = PKillIn e /\ exn_code e = c /\ is_mk e = false) \/
+  t_pc t' = PKillAll 0 c \/
+  (cmode = false /\ ft = L /\ t_pc t' = PJoin 0 None /\ t_rows t' = zs N /\ a + len = S N).
 Proof.
-  revert a; induction len as [|l IH]; intros a H.
-  - rewrite msgs_0. constructor.
-  - rewrite msgs_S_data by lia. constructor; [reflexivity | apply IH; lia].
+  induction len as [|l IH]; intros a t Hk Hfi Hc Hrw Hb HaN0 Hn Hm.
+  - rewrite msgs_0. cbn [sink_loop]. left. cbn. rewrite Nat.add_0_r. repeat split; auto; try lia.
+    all: try (intros E; specialize (Hm E); lia).
+    unfold cur_r, set_cur_r. cbn. apply nth_upd_eq. auto.
+  - pose proof Hcf as Hcf'. pose proof Hmode as Hmode'.
+    destruct (Nat.eq_dec a N) as [EaN | EaN].
+    { (* the end marker: the consumer has everything *)
+      rewrite EaN in *. rewrite msgs_S_stop. cbn [sink_loop]. right. right. right.
+      assert (Ecm : cmode = false).
+      { destruct cmode_cases as [E|E]; auto. rewrite E in Hmode'. specialize (Hm E). lia. }
+      assert (EfL : ft = L).
+      { destruct (Nat.eq_dec ft L); auto. assert (ft < L) by lia. specialize (Hn Ecm H). lia. }
+      split; auto. split; auto. unfold sink_stop. cbn [t_kind set_cur_r set_rd]. rewrite Hk. cbn. split; auto. split; auto. lia. }
+    assert (HaN : a < N) by lia.
+    rewrite msgs_S_data by lia. cbn [sink_loop].
+    set (tb := set_cur_r t (r_set_buf (cur_r t) (msgs N (S a) l))).
+    assert (Hcur : cur_r tb = r_set_buf (cur_r t) (msgs N (S a) l)).
+    { unfold tb, cur_r, set_cur_r. cbn. apply nth_upd_eq. auto. }
+    assert (Hgo : sink_data nt L tb (Z.of_nat a) = (add_row tb (Z.of_nat a), true) ->
+                  let t' := (let '(t', go) := sink_data nt L tb (Z.of_nat a) in if go then sink_loop nt L t' (msgs N (S a) l) else t') in
+                  (cmode = true -> S a <= ck) ->
+                  (t_pc t' = PRead /\ t_cnt t' = a + S l /\ (cmode = true -> a + S l <= ck) /\
+                   t_fi t' = t_fi t /\ t_nstop t' = t_nstop t /\ cur_r t' = r_set_buf (cur_r t) [] /\ t_rows t' = zs (a + S l) /\
+                   a + S l <= N) \/
+                  (exists e, t_pc t' = PKillIn e /\ exn_code e = c /\ is_mk e = false) \/
+                  t_pc t' = PKillAll 0 c \/
+                  (cmode = false /\ ft = L /\ t_pc t' = PJoin 0 None /\ t_rows t' = zs N /\ a + S l = S N)).
+    { intros Hsd. rewrite Hsd. cbv zeta. intros Hm'.
+      assert (A1 : t_kind (add_row tb (Z.of_nat a)) = KMain relay) by exact Hk.
+      assert (A2 : t_fi (add_row tb (Z.of_nat a)) < length (t_rd (add_row tb (Z.of_nat a)))).
+      { cbn. rewrite upd_length. auto. }
+      assert (A3 : t_cnt (add_row tb (Z.of_nat a)) = S a) by (cbn; rewrite Hc; reflexivity).
+      assert (A3' : t_rows (add_row tb (Z.of_nat a)) = zs (S a)).
+      { change (t_rows (add_row tb (Z.of_nat a))) with (t_rows t ++ [Z.of_nat a]). rewrite Hrw. symmetry. apply zs_S. }
+      assert (A4 : S a + l <= S N) by lia.
+      assert (A5 : cmode = false -> ft < L -> S a + l <= N) by (intros E E'; specialize (Hn E E'); lia).
+      assert (A4' : S a <= N) by lia.
+      destruct (IH (S a) (add_row tb (Z.of_nat a)) A1 A2 A3 A3' A4 A4' A5 Hm')
+        as [(H1 & H2 & H3 & H4 & H5 & H6 & H7 & H8) | [H | [H | (G1 & G2 & G3 & G4 & G5)]]].
+      - left. rewrite H1, H2, H4, H5, H6, H7.
+        change (cur_r (add_row tb (Z.of_nat a))) with (cur_r tb). rewrite Hcur.
+        split; [reflexivity|]. split; [lia|]. split; [intros E; specialize (H3 E); lia|].
+        split; [reflexivity|]. split; [reflexivity|]. split; [reflexivity|]. split; [f_equal; lia | lia].
+      - right. left. exact H.
+      - right. right. left. exact H.
+      - right. right. right. repeat split; auto. lia. }
+    assert (Hsd0 : sink_data nt L tb (Z.of_nat a) =
+                   match cfault_at nt a with
+                   | Some (true, _) =>
+                       if relay then (set_pc tb (PKillIn (EOrig C_OUTSIDE)), false)
+                       else if n_f1 nt then (set_pc tb (enter_killall nt C_GENEXIT), false)
+                       else (set_pc tb (PFin (OErr (EOrig C_TYPEERR))), false)
+                   | Some (false, x) => (set_pc tb (PKillIn (EOrig x)), false)
+                   | None => (add_row tb (Z.of_nat a), true)
+                   end).
+    { unfold sink_data. replace (t_kind tb) with (KMain relay) by (symmetry; exact Hk).
+      replace (t_cnt tb) with a by (symmetry; exact Hc). reflexivity. }
+    unfold cfault_at in Hsd0. rewrite Hcf' in Hsd0.
+    destruct cmode_cases as [E|E]; rewrite E in Hsd0, Hmode'.
+    + destruct Hmode' as (_ & HckN & Hcode & Hf1). specialize (Hm E).
+      destruct (ck =? a) eqn:Eck.
+      * apply Nat.eqb_eq in Eck. rewrite Hsd0. right.
+        destruct ccl.
+        -- destruct relay.
+           ++ left. eexists. cbn. split; [reflexivity|]. split; [symmetry; exact Hcode | reflexivity].
+           ++ rewrite Hf1. right. left. cbn. unfold enter_killall. destruct (n_kill nt); [contradiction|]. rewrite Hcode. reflexivity.
+        -- left. eexists. cbn. split; [reflexivity|]. split; [symmetry; exact Hcode | reflexivity].
+      * apply Nat.eqb_neq in Eck. apply (Hgo Hsd0). intros _. lia.
+    + apply (Hgo Hsd0). intros E'. congruence.
 Qed.
 
 (* ---------- state access after a region ---------- *)
@@ -309,11 +375,13 @@ Lemma Inv_frame st st' tid k :
   (forall p, tid = S p -> Rok (get_mb st' p) (get_th st' tid)) ->
   (k < L -> S k <> tid -> Rok (get_mb st' k) (get_th st (S k))) ->
   Tok tid (get_th st' tid) ->
+  (k < L -> mb_closed (get_mb st' k) = mb_closed (get_mb st k) \/
+            (mb_closed (get_mb st' k) = true /\ forall p, k = S p -> mb_closed (get_mb st p) = true)) ->
   Inv st'.
 Proof.
-  intros [Hsh [Hmb Hth]] Hsh' Hfr Htid HM HS1 HS2 HR1 HR2 HT.
+  intros [Hsh [Hmb [Hth Hcc]]] Hsh' Hfr Htid HM HS1 HS2 HR1 HR2 HT HC.
   pose proof (sh_nt _ Hsh) as Hnt.
-  split; auto. split.
+  split; auto. split; [|split].
   - intros j Hj. destruct (Hmb j Hj) as [HMj [HSj HRj]].
     assert (Hgm : j <> k -> get_mb st' j = get_mb st j) by (intros Hne; apply (proj2 Hfr); auto).
     split; [|split].
@@ -326,6 +394,16 @@ Proof.
       destruct (Nat.eq_dec j k) as [->|Hne]; [auto | rewrite Hgm; auto].
   - intros i Hi. destruct (Nat.eq_dec i tid) as [->|Hne]; auto.
     apply (Tok_weq _ (get_th st i)); [eapply fr_get_th; eauto; lia | auto].
+  - intros j Hj Hc.
+    assert (Hgm : forall x, x <> k -> get_mb st' x = get_mb st x) by (intros; apply (proj2 Hfr); auto).
+    destruct (Nat.eq_dec (S j) k) as [E|E].
+    + rewrite (Hgm j) by lia. assert (Hk : k < L) by lia. destruct (HC Hk) as [Heq | [_ Hp]].
+      * rewrite <- E in Heq. rewrite Heq in Hc. apply (Hcc j Hj Hc).
+      * apply (Hp j). auto.
+    + rewrite (Hgm (S j)) in Hc by auto. pose proof (Hcc j Hj Hc) as Hcj.
+      destruct (Nat.eq_dec j k) as [E2|E2].
+      * subst j. assert (Hk : k < L) by lia. destruct (HC Hk) as [Heq | [Ht _]]; [rewrite Heq; auto | auto].
+      * rewrite Hgm by auto. auto.
 Qed.
 
 (* mailboxes as seen by Sok / Rok: only some fields matter *)
@@ -388,7 +466,7 @@ Definition looptop (p : pc) : Prop :=
 
 Lemma ready_top st i : Inv st -> i < L -> looptop (t_pc (get_th st i)) -> ready i (get_th st i).
 Proof.
-  intros [Hsh [Hmb Hth]] Hi Hp. destruct (Hth i (Nat.lt_le_incl _ _ Hi)) as [Hfi [Hns [_ Hst]]].
+  intros [Hsh [Hmb [Hth Hcc]]] Hi Hp. destruct (Hth i (Nat.lt_le_incl _ _ Hi)) as [Hfi [Hns [_ Hst]]].
   destruct (Hst Hi) as [Hrng [Hcl [Hcnt Hlink]]].
   split; [apply (sh_st _ Hsh); auto|]. split; auto. split; auto. split; auto.
   intros H1. destruct i as [|p]; [lia|].
@@ -412,7 +490,7 @@ Definition wvar (p p' : pc) : Prop :=
   (exists oi m x, p = PSend oi m x /\ p' = PSendWait oi m x).
 Definition sim (t t' : thread) : Prop :=
   t_kind t' = t_kind t /\ t_rd t' = t_rd t /\ t_fi t' = t_fi t /\ t_nstop t' = t_nstop t /\ t_cnt t' = t_cnt t /\
-  wvar (t_pc t) (t_pc t').
+  t_rows t' = t_rows t /\ wvar (t_pc t) (t_pc t').
 
 Lemma sim_wait t p' b : wvar (t_pc t) p' -> sim t (set_woken (set_pc t p') b).
 Proof. intros H. unfold sim. cbn. auto 10. Qed.
@@ -422,7 +500,7 @@ Proof. unfold sim, wvar. cbn. auto 10. Qed.
 Ltac sim_tac t t' H :=
   destruct t as [kind pc0 wk rd fi nstop val cnt rows cl ex got];
   destruct t' as [kind' pc0' wk' rd' fi' nstop' val' cnt' rows' cl' ex' got'];
-  unfold sim in H; cbn in H; destruct H as (-> & -> & -> & -> & -> & Hw);
+  unfold sim in H; cbn in H; destruct H as (-> & -> & -> & -> & -> & -> & Hw);
   destruct Hw as [->|[(oi & -> & ->)|(oi & mm & x & -> & ->)]].
 
 Lemma sim_Sok m t t' : sim t t' -> Sok m t -> Sok m t'.
@@ -437,16 +515,16 @@ Lemma sim_Tok i t t' : sim t t' -> Tok i t -> Tok i t'.
 Proof.
   intros H. sim_tac t t' H; auto.
   - unfold Tok, head_no, cur_r. cbn. intros (H1 & H2 & H3 & H4).
-    repeat split; auto; try (intros E; destruct (H3 E); discriminate); try (apply H4; auto).
+    repeat split; auto; try (intros E; destruct (H3 E) as [[X|X] _]; discriminate); try (match goal with HH : _ = L |- _ => destruct (H3 HH) as [[X|X] _]; discriminate end); try (apply H4; auto).
   - destruct x; unfold Tok, head_no, cur_r; cbn; intros (H1 & H2 & H3 & H4);
-      repeat split; auto; try (intros E; destruct (H3 E); discriminate); try (apply H4; auto).
+      repeat split; auto; try (intros E; destruct (H3 E) as [[X|X] _]; discriminate); try (match goal with HH : _ = L |- _ => destruct (H3 HH) as [[X|X] _]; discriminate end); try (apply H4; auto).
 Qed.
 
 (* a thread that only changes as in sim *)
 Lemma Inv_sim st i t' :
   Inv st -> i <= L -> sim (get_th st i) t' -> shape (set_th st i t') -> Inv (set_th st i t').
 Proof.
-  intros HI Hi Hs Hsh'. pose proof HI as [Hsh [Hmb Hth]].
+  intros HI Hi Hs Hsh'. pose proof HI as [Hsh [Hmb [Hth Hcc]]].
   assert (Hlen : i < length (ths st)) by (rewrite (sh_nt _ Hsh); lia).
   apply (Inv_frame st _ i L HI Hsh' (fr_set_th i L st t')); try lia.
   - intros Hlt. gets. rewrite get_th_set_th_eq by auto. apply (sim_Sok _ _ _ Hs). apply (Hmb i Hlt).
@@ -479,7 +557,7 @@ Lemma gate_case st i (resume : bool) (oi : nat) :
   Inv (gate_region nt i resume st (get_th st i) oi).
 Proof.
   intros HI Hi Hnth Hpc. set (t := get_th st i) in *.
-  pose proof HI as [Hsh [Hmb Hth]].
+  pose proof HI as [Hsh [Hmb [Hth Hcc]]].
   assert (Hlen : i < length (ths st)) by (rewrite (sh_nt _ Hsh); lia).
   assert (Hk : t_kind t = KStage N i).
   { pose proof (sh_st _ Hsh i Hi) as Hs. unfold tsig, stage_sig in Hs. fold t in Hs. congruence. }
@@ -517,7 +595,7 @@ Lemma killout_case st i oi e :
   Inv (killout_region i st (get_th st i) oi e).
 Proof.
   intros HI Hi Hnth Hpc. set (t := get_th st i) in *.
-  pose proof HI as [Hsh [Hmb Hth]].
+  pose proof HI as [Hsh [Hmb [Hth Hcc]]].
   assert (Hlen : i < length (ths st)) by (rewrite (sh_nt _ Hsh); lia).
   assert (Hlm : i < length (mbs st)) by (rewrite (sh_nm _ Hsh); lia).
   assert (Hk : t_kind t = KStage N i).
@@ -552,6 +630,7 @@ Proof.
   - intros _ _. rewrite Hm'. eapply Rok_fields; [|exact HR].
     destruct (mb_killed (get_mb st i)); reflexivity.
   - rewrite Ht'. destruct Hpc' as [-> | ->]; apply Tok_leave; auto; exact I.
+  - intros _. left. rewrite Hm'. destruct (mb_killed (get_mb st i)); reflexivity.
 Qed.
 
 (* ---------- send ---------- *)
@@ -578,7 +657,7 @@ Lemma send_facts :
   i < length (ths st) /\ i < length (mbs st) /\ t_kind t = KStage N i /\ Mok i m /\ Sok m t /\
   Rok m (get_th st (S i)) /\ Tok i t /\ mb_closed m = false /\ t_pc t <> PReadWait /\ t_pc t <> PDone.
 Proof.
-  pose proof HI as [Hsh [Hmb Hth]].
+  pose proof HI as [Hsh [Hmb [Hth Hcc]]].
   destruct (Hmb i Hi) as [HM [HS HR]].
   assert (Hp1 : t_pc t <> PReadWait) by (rewrite Hpc; destruct resume; discriminate).
   assert (Hp2 : t_pc t <> PDone) by (rewrite Hpc; destruct resume; discriminate).
@@ -597,7 +676,7 @@ Lemma raise_ok :
   Inv (set_th st i (send_raise nt t cl (EKilled (mb_reason m)))).
 Proof.
   intros Hkd Hsh'. destruct send_facts as (Hlen & Hlm & Hk & HM & HS & HR & HT & Hcl & Hp1 & Hp2).
-  pose proof HI as [Hsh [Hmb Hth]].
+  pose proof HI as [Hsh [Hmb [Hth Hcc]]].
   assert (Ht' : exists p', send_raise nt t cl (EKilled (mb_reason m)) = set_pc t p' /\
                            match p' with PDone | PDead _ => True | PKillOut _ e => exn_code e = c | _ => False end).
   { unfold send_raise. rewrite Hk. destruct cl.
@@ -618,7 +697,7 @@ Lemma push_ok :
   shape (do_push nt i st t oi mg cl) -> Inv (do_push nt i st t oi mg cl).
 Proof.
   intros Hnk. destruct send_facts as (Hlen & Hlm & Hk & HM & HS & HR & HT & Hcl & Hp1 & Hp2).
-  pose proof HI as [Hsh [Hmb Hth]].
+  pose proof HI as [Hsh [Hmb [Hth Hcc]]].
   assert (HS2 : nth_error (MS N) (mb_nsent m) = Some mg /\ cl = is_stop mg /\
                 t_cnt t = (if cl then mb_nsent m else S (mb_nsent m))).
   { destruct HS as [_ HS]. specialize (HS Hnk). rewrite Hpc in HS. destruct resume; exact HS. }
@@ -663,6 +742,15 @@ Proof.
       apply Rok_leave; auto; try exact I.
     + intros _ _. rewrite Hm', Hmc. eapply Rok_fields; [|exact HR]. reflexivity.
     + rewrite Ht'. apply Tok_leave; auto; try exact I.
+    + intros _. right. rewrite Hm', Hmc. split; [reflexivity|]. intros p Ep.
+      assert (HRp : Rok (get_mb st p) t) by (unfold t; subst i; apply (Hmb p); lia).
+      destruct HRp as [[Hn _] _].
+      assert (HMp : Mok p (get_mb st p)) by (apply (Hmb p); lia).
+      assert (Hrn : r_next (cur_r t) = S N).
+      { destruct HT as (_ & _ & _ & H4). destruct (H4 Hi) as (_ & _ & _ & H5).
+        assert (H1 : 1 <= i) by lia. specialize (H5 H1). rewrite Hpc in H5. destruct resume; exact H5. }
+      rewrite (mo_closed _ _ HMp). apply Nat.eqb_eq.
+      pose proof (mo_le _ _ HMp). pose proof (mo_bound _ _ HMp). lia.
   - (* an ordinary send, then the top of the loop *)
     assert (Hlt : mb_nsent m < N) by (apply (MS_nonstop_lt _ _ _ Hnth); auto).
     set (t' := loop_start nt i st1 t).
@@ -683,6 +771,7 @@ Proof.
       rewrite Hw, Hpc. destruct resume; reflexivity.
     + intros _ _. rewrite Hm'. eapply Rok_fields; [|exact HR]. reflexivity.
     + rewrite Ht'. exact PT.
+    + intros _. left. rewrite Hm'. reflexivity.
 Qed.
 
 End Send.
@@ -774,7 +863,9 @@ Qed.
 Lemma Tok_rw i t b : t_pc t = PRead -> Tok i t -> Tok i (set_woken (set_pc t PReadWait) b).
 Proof.
   unfold Tok, head_no, cur_r. cbn. intros E (H1 & H2 & H3 & H4). rewrite E in *.
-  repeat split; auto; apply H4; auto.
+  split; auto. split; auto. split.
+  - intros Ei. destruct (H3 Ei) as (_ & A & B). auto.
+  - intros Ei. destruct (H4 Ei) as (A & B & C & D). auto.
 Qed.
 
 Lemma Rok_intro m m' t t' :
@@ -784,15 +875,36 @@ Lemma Rok_intro m m' t t' :
   Rok m' t'.
 Proof. unfold Rok, rcore. intros (A & B & C & D & E) Hc Hn Hw Hr. rewrite Hc, Hn. auto 10. Qed.
 
+(* the consumer's failure has fired: the caller is about to kill its input and enter kill-all *)
+Definition firing (st : nstate) : Prop :=
+  shape st /\ exists e, t_pc (get_th st L) = PKillIn e /\ exn_code e = c /\ is_mk e = false.
+
+(* the caller has taken the end marker: every stage is done *)
+Definition stopping (st : nstate) : Prop :=
+  shape st /\ cmode = false /\ ft = L /\ (forall j, j < L -> t_pc (get_th st j) = PDone) /\
+  t_pc (get_th st L) = PJoin 0 None /\ t_rows (get_th st L) = zs N.
+
+Lemma all_closed st : Inv st -> mb_closed (get_mb st (L - 1)) = true -> forall j, j < L -> mb_closed (get_mb st j) = true.
+Proof.
+  intros [_ [_ [_ Hcc]]] Hc.
+  assert (H : forall d j, j + d = L - 1 -> mb_closed (get_mb st j) = true).
+  { induction d as [|d IH]; intros j Hj.
+    - replace j with (L - 1) by lia. exact Hc.
+    - apply Hcc; [lia|]. apply IH. lia. }
+  intros j Hj. apply (H (L - 1 - j)). lia.
+Qed.
+
 Lemma read_case st p (resume : bool) :
   Inv st -> p < L ->
   t_pc (get_th st (S p)) = (if resume then PReadWait else PRead) ->
   shape (read_region nt (S p) resume st (get_th st (S p))) ->
   Inv (read_region nt (S p) resume st (get_th st (S p))) \/
-  noticed L (read_region nt (S p) resume st (get_th st (S p))) c.
+  firing (read_region nt (S p) resume st (get_th st (S p))) \/
+  noticed L (read_region nt (S p) resume st (get_th st (S p))) c \/
+  (S p = L /\ stopping (read_region nt (S p) resume st (get_th st (S p)))).
 Proof.
   intros HI Hp Hpc. set (tid := S p) in *. set (t := get_th st tid) in *.
-  pose proof HI as [Hsh [Hmb Hth]].
+  pose proof HI as [Hsh [Hmb [Hth Hcc]]].
   destruct (Hmb p Hp) as [HM [HSp HR]]. fold tid in HR. fold t in HR.
   assert (Htid : tid <= L) by (unfold tid; lia).
   pose proof (Hth tid Htid) as HT. fold t in HT.
@@ -824,7 +936,7 @@ Proof.
     set (m1 := set_sub m 0 x) in *.
     destruct (Nat.eq_dec tid L) as [EL | NL].
     + (* the caller notices *)
-      intros _ _. right. unfold noticed. rewrite <- EL. rewrite get_th_set_th_eq by (lens; auto).
+      intros _ _. right. right. left. unfold noticed. rewrite <- EL. rewrite get_th_set_th_eq by (lens; auto).
       unfold on_input_killed. rewrite Hkind, (Hk2 EL). unfold enter_killall.
       destruct (n_kill nt) eqn:En; [contradiction|]. cbn. apply (mo_reason _ _ HM). auto.
     + (* a stage passes the MailboxKilled on *)
@@ -845,6 +957,7 @@ Proof.
       * intros q Hq. assert (q = p) by (unfold tid in Hq; lia). subst q. rewrite Hm', Ht', Et'.
         apply (Rok_intro m m1 t); [exact Hrc | reflexivity | rewrite Hs1; exact Hx | rewrite Hs1; reflexivity | exact I].
       * rewrite Ht', Et'. apply Tok_leave; auto. cbn. apply (mo_reason _ _ HM); auto.
+      * intros _. left. rewrite Hm'. reflexivity.
   - rewrite orb_false_r. rewrite (has_lt p m HM). destruct (sb_nread (sub0 m) <? mb_nsent m) eqn:Elt.
     + (* data *)
       apply Nat.ltb_lt in Elt. rewrite (take_ok p m HM Elt). cbv beta iota.
@@ -863,27 +976,55 @@ Proof.
       assert (Hl3 : tid < length (ths st3)) by (unfold st3; lens; auto).
       assert (Ht3 : forall t', get_th (set_th st3 tid t') tid = t') by (intros; apply get_th_set_th_eq; auto).
       assert (HS2 : Sok m3 (get_th st p)) by (eapply Sok_fields; [| | | exact HSp]; auto).
-      assert (Hnp : mb_nsent m <= N -> Forall (fun x => is_stop x = false) ms).
-      { intros Hle. unfold ms. apply msgs_nonstop. lia. }
       destruct (Nat.eq_dec tid L) as [EL | NL].
       * (* the caller takes the chunks *)
-        intros Hfr Hsh'. left.
-        assert (Hle : mb_nsent m <= N) by (apply (mo_ft _ _ HM); unfold tid in EL; lia).
+        intros Hfr Hsh'.
+        assert (Ht3L : forall t', get_th (set_th st3 tid t') L = t') by (intros; rewrite <- EL; apply Ht3).
         assert (Hco : consume nt tid t1 = sink_loop nt L t1 ms).
         { unfold consume. change (t_kind t1) with (t_kind t). rewrite Hkind, (Hk2 EL), Hc1, EL. reflexivity. }
         rewrite Hco in *.
-        destruct (main_loop ms t1) as (Q1 & Q2 & Q3 & Q4); auto.
-        { change (t_kind t1) with (t_kind t). rewrite Hkind. auto. }
+        destruct HT as (_ & _ & HT3 & _). destruct (HT3 EL) as (_ & Hcm & Hck & Hrows).
+        pose proof (mo_bound _ _ HM) as Hbd.
+        assert (B1 : t_kind t1 = KMain relay) by (change (t_kind t1) with (t_kind t); rewrite Hkind; auto).
+        assert (B2 : t_fi t1 < length (t_rd t1)).
         { unfold t1, set_cur_r. cbn. rewrite upd_length, Hrd, Hfi. cbn. lia. }
-        set (t' := sink_loop nt L t1 ms) in *.
-        apply (Inv_frame st _ tid p HI Hsh' Hfr); try lia.
-        -- intros _. rewrite Hg3. exact HM3.
-        -- intros _ _. rewrite Hg3. exact HS2.
-        -- intros q Hq. assert (q = p) by (unfold tid in Hq; lia). subst q. rewrite Hg3, Ht3.
-           unfold Rok, rcore. rewrite Q1, Q4, Hc1, Hs3. cbn. rewrite msgs_0.
-           repeat split; auto; try lia.
-        -- rewrite Ht3. unfold Tok. rewrite Q1, Q2, Q3. change (t_fi t1) with (t_fi t). change (t_nstop t1) with (t_nstop t).
-           repeat split; auto; try lia.
+        assert (B3 : t_cnt t1 = sb_nread (sub0 m)) by (change (t_cnt t1) with (t_cnt t); rewrite Hcm, Hn; reflexivity).
+        assert (B3' : t_rows t1 = zs (sb_nread (sub0 m))).
+        { change (t_rows t1) with (t_rows t). rewrite Hrows, Hcm, Hn. reflexivity. }
+        assert (B4 : sb_nread (sub0 m) + (mb_nsent m - sb_nread (sub0 m)) <= S N) by lia.
+        assert (B4' : sb_nread (sub0 m) <= N) by (rewrite <- Hn; exact HnN).
+        assert (B5 : cmode = false -> ft < L -> sb_nread (sub0 m) + (mb_nsent m - sb_nread (sub0 m)) <= N).
+        { intros E E'. assert (mb_nsent m <= N) by (apply (mo_ft _ _ HM); unfold tid in EL; lia). lia. }
+        assert (B6 : cmode = true -> sb_nread (sub0 m) <= ck).
+        { intros E. specialize (Hck E). rewrite Hcm, Hn in Hck. exact Hck. }
+        destruct (main_loop (mb_nsent m - sb_nread (sub0 m)) (sb_nread (sub0 m)) t1 B1 B2 B3 B3' B4 B4' B5 B6)
+          as [(Q1 & Qc & Qk & Q2 & Q3 & Q4 & Q5 & Q6) | [Hfire | [Hnot | (G1 & G2 & G3 & G4 & G5)]]].
+        -- fold ms in Q1, Qc, Qk, Q2, Q3, Q4, Q5. left. set (t' := sink_loop nt L t1 ms) in *.
+           apply (Inv_frame st _ tid p HI Hsh' Hfr); try lia.
+           ++ intros _. rewrite Hg3. exact HM3.
+           ++ intros _ _. rewrite Hg3. exact HS2.
+           ++ intros q Hq. assert (q = p) by (unfold tid in Hq; lia). subst q. rewrite Hg3, Ht3.
+              unfold Rok, rcore. rewrite Q1, Q4, Hc1, Hs3. cbn. rewrite msgs_0.
+              repeat split; auto; try lia; try (symmetry; apply Nat.eqb_neq; lia).
+           ++ rewrite Ht3. unfold Tok. rewrite Q1, Q2, Q3, Q4, Q5, Qc, Hc1.
+              change (t_fi t1) with (t_fi t). change (t_nstop t1) with (t_nstop t). cbn [r_next r_set_buf].
+              repeat split; auto; try lia; try (intros E; specialize (Qk E); lia); try (f_equal; lia).
+           ++ intros _. left. rewrite Hg3. exact Hc3.
+        -- fold ms in Hfire. right. left. split; [exact Hsh'|]. rewrite Ht3L. exact Hfire.
+        -- fold ms in Hnot. right. right. left. unfold noticed. rewrite Ht3L, Hnot. reflexivity.
+        -- fold ms in G3, G4. right. right. right. split; [exact EL|].
+           split; [exact Hsh'|]. split; [exact G1|]. split; [exact G2|].
+           assert (Hclm : mb_closed m = true).
+           { rewrite (mo_closed _ _ HM). apply Nat.eqb_eq. lia. }
+           assert (Hall : forall j, j < L -> t_pc (get_th st j) = PDone).
+           { intros j Hj. assert (Hcj : mb_closed (get_mb st j) = true).
+             { apply (all_closed st HI); auto. replace (L - 1) with p by (unfold tid in EL; lia). exact Hclm. }
+             destruct (Hmb j Hj) as [_ [[HSj _] _]]. auto. }
+           split; [|rewrite Ht3L; auto].
+           intros j Hj. rewrite <- (Hall j Hj).
+           assert (Hw' : weq (get_th st j) (get_th (set_th st3 tid (sink_loop nt L t1 ms)) j)).
+           { eapply fr_get_th; eauto; lia. }
+           destruct Hw' as [-> | ->]; reflexivity.
       * (* a stage goes on with its loop *)
         assert (HtL : tid < L) by lia. intros Hfr Hsh'. left.
         destruct (Hmb tid HtL) as [HMt [HSt _]]. fold t in HSt.
@@ -916,6 +1057,7 @@ Proof.
         -- intros q Hq. assert (q = p) by (unfold tid in Hq; lia). subst q. rewrite Hg3, Ht3.
            apply PR; [unfold tid; lia | rewrite Hc1, Hs3; reflexivity | rewrite Hs3; reflexivity].
         -- rewrite Ht3. exact PT.
+        -- intros _. left. rewrite Hg3. exact Hc3.
     + (* nothing there yet *)
       destruct resume.
       * intros _ Hsh'. left. apply Inv_sim; auto. apply sim_woken.
@@ -938,6 +1080,7 @@ Proof.
            ++ rewrite Hs1. unfold t'. cbn [t_pc set_pc set_woken]. unfold x. cbn [sb_wait sub_set_wait]. rewrite Hn. reflexivity.
            ++ unfold t'. cbn [t_pc set_pc set_woken]. auto.
         -- rewrite Ht'. apply Tok_rw; auto.
+        -- intros _. left. rewrite Hm'. reflexivity.
 Qed.
 
 (* ---------- one step ---------- *)
@@ -953,13 +1096,34 @@ Qed.
 Lemma Tok_not_join i t : i <= L -> Tok i t -> forall k exc, t_pc t <> PJoin k exc.
 Proof.
   intros Hi (_ & _ & H3 & H4) k exc E. destruct (Nat.eq_dec i L) as [->|Hne].
-  - destruct (H3 eq_refl); congruence.
+  - destruct (H3 eq_refl) as [[X|X] _]; congruence.
   - destruct H4 as [H4 _]; [lia|]. rewrite E in H4. exact H4.
 Qed.
 
-Lemma Inv_step st tid st' : Inv st -> nstep nt st tid = Some st' -> Inv st' \/ noticed L st' c.
+Lemma enter_killall_c : enter_killall nt c = PKillAll 0 c.
+Proof. unfold enter_killall. destruct (n_kill nt); [contradiction | reflexivity]. Qed.
+
+(* the run is over: everything delivered *)
+Definition finished (st : nstate) : Prop :=
+  cmode = false /\ ft = L /\ all_terminal st = true /\ main_outcome st L = Some (OOk (zs N)).
+
+Lemma first_alive_none_all st order : (forall x, In x order -> terminal (get_th st x) = true) ->
+  forall idx, first_alive st order idx = None.
 Proof.
-  intros HI Hstep. pose proof HI as [Hsh [Hmb Hth]].
+  induction order as [|x rest IH]; intros H idx; cbn; auto.
+  rewrite (H x) by (left; auto). apply IH. intros y Hy. apply H. right. auto.
+Qed.
+
+Lemma all_terminal_intro st : (forall i, i < length (ths st) -> terminal (get_th st i) = true) -> all_terminal st = true.
+Proof.
+  intros H. unfold all_terminal. apply forallb_forall. intros t Hin.
+  destruct (In_nth _ _ dflt_th Hin) as [i [Hi E]]. rewrite <- E. apply (H i Hi).
+Qed.
+
+Lemma Inv_step st tid st' :
+  Inv st -> nstep nt st tid = Some st' -> Inv st' \/ firing st' \/ noticed L st' c \/ finished st'.
+Proof.
+  intros HI Hstep. pose proof HI as [Hsh [Hmb [Hth Hcc]]].
   unfold nstep in Hstep. destruct (nth_error (ths st) tid) as [t|] eqn:Et; [|discriminate].
   destruct (t_enabled nt st t) eqn:Een; [|discriminate]. inversion Hstep; subst st'. clear Hstep.
   assert (Hlt : tid < length (ths st)) by (apply nth_error_Some; congruence).
@@ -967,11 +1131,15 @@ Proof.
   pose proof (get_th_nth _ _ _ Et) as Hg. subst t.
   assert (HshX : shape (thread_step nt tid st (get_th st tid))).
   { apply (shape_sig st); [apply (sig_thread_step nt tid st _ Et) | auto]. }
+  assert (HlX : length (ths (thread_step nt tid st (get_th st tid))) = S L).
+  { destruct (sig_lengths _ _ (sig_thread_step nt tid st _ Et)) as [_ Hl]. rewrite Hl, (sh_nt _ Hsh). reflexivity. }
   pose proof (Hth tid Htid) as HT.
-  assert (HX : Inv (thread_step nt tid st (get_th st tid)) \/ noticed L (thread_step nt tid st (get_th st tid)) c).
+  assert (HX : Inv (thread_step nt tid st (get_th st tid)) \/ firing (thread_step nt tid st (get_th st tid)) \/
+               noticed L (thread_step nt tid st (get_th st tid)) c \/
+               (tid = L /\ stopping (thread_step nt tid st (get_th st tid)))).
   { destruct HT as (_ & _ & HT3 & HT4).
     assert (Hstage : t_pc (get_th st tid) <> PRead -> t_pc (get_th st tid) <> PReadWait -> tid < L).
-    { intros H1 H2. destruct (Nat.eq_dec tid L) as [E|E]; [|lia]. destruct (HT3 E); contradiction. }
+    { intros H1 H2. destruct (Nat.eq_dec tid L) as [E|E]; [|lia]. destruct (HT3 E) as [[X|X] _]; contradiction. }
     assert (Hrd : t_pc (get_th st tid) = PRead \/ t_pc (get_th st tid) = PReadWait -> exists p, tid = S p /\ p < L).
     { intros H. destruct tid as [|p]; [|exists p; split; auto; lia].
       exfalso. destruct HT4 as [H4 _]; [lia|]. destruct H as [H|H]; rewrite H in H4; lia. }
@@ -987,23 +1155,92 @@ Proof.
     - exfalso. destruct HT4 as [H4 _]; [apply Hstage; discriminate | exact H4].
     - exfalso. destruct HT4 as [H4 _]; [apply Hstage; discriminate | exact H4].
     - exfalso. destruct HT4 as [H4 _]; [apply Hstage; discriminate | exact H4]. }
-  destruct HX as [HIX | HnX].
+  destruct HX as [HIX | [HfX | [HnX | [EL HsX]]]].
   - left. rewrite settle_other; auto.
-    intros k exc. apply (Tok_not_join tid); auto. destruct HIX as [_ [_ H]]. apply H. auto.
-  - right. apply noticed_settle; auto.
-    destruct (sig_lengths _ _ (sig_thread_step nt tid st _ Et)) as [_ Hl]. rewrite Hl, (sh_nt _ Hsh). lia.
+    intros k exc. apply (Tok_not_join tid); auto. destruct HIX as [_ [_ [H _]]]. apply H. auto.
+  - destruct HfX as [_ [e [E1 [E2 E3]]]].
+    destruct (Nat.eq_dec tid L) as [->|Hne].
+    + right. left. rewrite settle_other by (intros k exc; rewrite E1; discriminate).
+      split; auto. exists e. auto.
+    + right. left. split; [apply (shape_sig (thread_step nt tid st (get_th st tid))); [apply sig_settle | auto]|].
+      exists e. rewrite (pe_get_th tid _ _ L (pe_settle nt tid _)) by auto. auto.
+  - right. right. left. apply noticed_settle; auto. rewrite HlX. lia.
+  - right. right. right. subst tid. destruct HsX as (_ & G1 & G2 & Gall & Gpc & Grows).
+    set (X := thread_step nt L st (get_th st L)) in *.
+    assert (Hterm : forall x, x <> L -> terminal (get_th X x) = true).
+    { intros x Hx. destruct (Nat.lt_ge_cases x L) as [H|H].
+      - unfold terminal. rewrite (Gall x H). reflexivity.
+      - unfold get_th. rewrite nth_overflow by lia. reflexivity. }
+    unfold settle. rewrite Gpc. cbn [skipn].
+    rewrite first_alive_none_all by (intros x Hx; apply Hterm; apply Hjoin; auto).
+    unfold final_outcome. rewrite Hsav. cbn [saver_check]. rewrite Grows.
+    split; auto. split; auto. split.
+    + apply all_terminal_intro. rewrite length_ths_set_th. intros i Hi.
+      destruct (Nat.eq_dec i L) as [->|Hne].
+      * rewrite get_th_set_th_eq by lia. reflexivity.
+      * rewrite get_th_set_th_neq by auto. apply Hterm. auto.
+    + unfold main_outcome. rewrite get_th_set_th_eq by lia. reflexivity.
+Qed.
+
+Lemma finished_run sched : forall st st', finished st -> nrun nt st sched = Some st' -> st' = st.
+Proof.
+  destruct sched as [|t rest]; intros st st' HF Hr; cbn in Hr; [inversion Hr; auto|].
+  exfalso. destruct HF as (_ & _ & Hat & _). unfold nstep in Hr.
+  destruct (nth_error (ths st) t) as [t0|] eqn:E; [|discriminate].
+  assert (Ht0 : terminal t0 = true).
+  { unfold all_terminal in Hat. rewrite forallb_forall in Hat. apply Hat. eapply nth_error_In; eauto. }
+  assert (Hen : t_enabled nt st t0 = false).
+  { unfold terminal in Ht0. unfold t_enabled. destruct (t_pc t0); try discriminate; reflexivity. }
+  rewrite Hen in Hr. discriminate.
+Qed.
+
+(* from the firing state: the caller's next step kills its input and enters kill-all with c *)
+Lemma firing_step st tid st' : firing st -> nstep nt st tid = Some st' -> firing st' \/ noticed L st' c.
+Proof.
+  intros [Hsh [e [E1 [E2 E3]]]] Hstep.
+  assert (Hsh' : shape st') by (apply (shape_sig st); [apply (sig_step _ _ _ _ Hstep) | auto]).
+  destruct (Nat.eq_dec tid L) as [->|Hne].
+  - right. unfold nstep in Hstep. destruct (nth_error (ths st) L) as [t|] eqn:Et; [|discriminate].
+    destruct (t_enabled nt st t); [|discriminate]. inversion Hstep; subst st'. clear Hstep.
+    pose proof (get_th_nth _ _ _ Et) as Hg. subst t.
+    assert (Hlt : L < length (ths st)) by (rewrite (sh_nt _ Hsh); lia).
+    assert (Hk : t_kind (get_th st L) = KMain relay).
+    { pose proof (sh_main _ Hsh) as Hs. unfold tsig in Hs. congruence. }
+    unfold thread_step. rewrite E1. unfold killin_region. rewrite E3. cbn [andb]. rewrite Hk, E2, enter_killall_c.
+    rewrite settle_other.
+    + unfold noticed. rewrite get_th_set_th_eq by (rewrite len_kill_mb; auto). reflexivity.
+    + intros k exc. rewrite get_th_set_th_eq by (rewrite len_kill_mb; auto). discriminate.
+  - left. split; auto. exists e. pose proof (pe_step _ _ _ _ Hstep) as Hpe.
+    rewrite (pe_get_th tid st st' L Hpe) by auto. auto.
+Qed.
+
+Lemma firing_run sched : forall st st', firing st -> nrun nt st sched = Some st' ->
+  firing st' \/ exists s1 s2 st1, sched = s1 ++ s2 /\ nrun nt st s1 = Some st1 /\ noticed L st1 c /\ nrun nt st1 s2 = Some st'.
+Proof.
+  induction sched as [|t rest IH]; intros st st' HF Hr; cbn in Hr.
+  - inversion Hr; subst. auto.
+  - destruct (nstep nt st t) as [sa|] eqn:E; [|discriminate].
+    destruct (firing_step _ _ _ HF E) as [HFa | Hn].
+    + destruct (IH _ _ HFa Hr) as [H | (s1 & s2 & st1 & -> & H1 & H2 & H3)]; auto.
+      right. exists (t :: s1), s2, st1. cbn. rewrite E. auto.
+    + right. exists [t], rest, sa. cbn. rewrite E. auto.
 Qed.
 
 Lemma Inv_run sched : forall st st', Inv st -> nrun nt st sched = Some st' ->
-  Inv st' \/ exists s1 s2 st1, sched = s1 ++ s2 /\ nrun nt st s1 = Some st1 /\ noticed L st1 c /\ nrun nt st1 s2 = Some st'.
+  Inv st' \/ firing st' \/
+  (exists s1 s2 st1, sched = s1 ++ s2 /\ nrun nt st s1 = Some st1 /\ noticed L st1 c /\ nrun nt st1 s2 = Some st') \/
+  finished st'.
 Proof.
   induction sched as [|t rest IH]; intros st st' HI Hr; cbn in Hr.
   - inversion Hr; subst. auto.
   - destruct (nstep nt st t) as [sa|] eqn:E; [|discriminate].
-    destruct (Inv_step _ _ _ HI E) as [HIa | Hn].
-    + destruct (IH _ _ HIa Hr) as [H | (s1 & s2 & st1 & -> & H1 & H2 & H3)]; auto.
-      right. exists (t :: s1), s2, st1. cbn. rewrite E. auto.
-    + right. exists [t], rest, sa. cbn. rewrite E. auto.
+    destruct (Inv_step _ _ _ HI E) as [HIa | [HFa | [Hn | Hfin]]].
+    + destruct (IH _ _ HIa Hr) as [H | [H | [(s1 & s2 & st1 & -> & H1 & H2 & H3) | H]]]; auto.
+      right. right. left. exists (t :: s1), s2, st1. cbn. rewrite E. auto.
+    + destruct (firing_run rest _ _ HFa Hr) as [H | (s1 & s2 & st1 & -> & H1 & H2 & H3)]; auto.
+      right. right. left. exists (t :: s1), s2, st1. cbn. rewrite E. auto.
+    + right. right. left. exists [t], rest, sa. cbn. rewrite E. auto.
+    + right. right. right. rewrite (finished_run rest _ _ Hfin Hr). exact Hfin.
 Qed.
 
 (* ---------- no deadlock before the caller has noticed ---------- *)
@@ -1042,7 +1279,7 @@ Lemma stuck_step j :
   j < L -> (forall j', S j' = j -> t_pc (get_th st (S j')) = PReadWait -> False) ->
   t_pc (get_th st (S j)) = PReadWait -> False.
 Proof.
-  intros Hj IH Hpc. pose proof HI as [Hsh [Hmb Hth]].
+  intros Hj IH Hpc. pose proof HI as [Hsh [Hmb [Hth Hcc]]].
   destruct (Hmb j Hj) as [HM [HS HR]].
   pose proof (Hth j (Nat.lt_le_incl _ _ Hj)) as HTs.
   pose proof (Hth (S j) Hj) as HTr.
@@ -1097,10 +1334,10 @@ Qed.
 
 Lemma no_deadlock : False.
 Proof.
-  pose proof HI as [Hsh [Hmb Hth]].
+  pose proof HI as [Hsh [Hmb [Hth Hcc]]].
   destruct (Hth L (le_n _)) as (_ & _ & H3 & _).
   pose proof (q_disabled L (le_n _)) as Hen. unfold t_enabled in Hen.
-  destruct (H3 eq_refl) as [E|E]; rewrite E in Hen; [discriminate|].
+  destruct (H3 eq_refl) as [[E|E] _]; rewrite E in Hen; [discriminate|].
   apply (reader_never_stuck (L - 1)); [lia|]. replace (S (L - 1)) with L by lia. exact E.
 Qed.
 End Quiet.
@@ -1142,10 +1379,11 @@ Proof.
     destruct i as [|p]; cbn; rewrite ?msgs_0; repeat split; auto; try lia. }
   assert (Hmn : t_pc (get_th (start_all nt st0) L) = PRead /\ t_fi (get_th (start_all nt st0) L) = 0 /\
                 t_nstop (get_th (start_all nt st0) L) = 0 /\
-                cur_r (get_th (start_all nt st0) L) = mkR (L - 1) 0 0 false []).
-  { rewrite Hth by (unfold st0; cbn [ths]; lia). unfold get_th, st0. cbn [ths]. rewrite Hmain. cbn. auto. }
-  destruct Hmn as (Q1 & Q2 & Q3 & Q4).
-  split; [auto|]. split.
+                cur_r (get_th (start_all nt st0) L) = mkR (L - 1) 0 0 false [] /\
+                t_cnt (get_th (start_all nt st0) L) = 0 /\ t_rows (get_th (start_all nt st0) L) = []).
+  { rewrite Hth by (unfold st0; cbn [ths]; lia). unfold get_th, st0. cbn [ths]. rewrite Hmain. cbn. auto 10. }
+  destruct Hmn as (Q1 & Q2 & Q3 & Q4 & Q5 & Q6).
+  split; [auto|]. split; [|split].
   - intros j Hj. rewrite Hgm. destruct (Hbox j Hj) as [cap [E Hc]].
     assert (Em : get_mb st0 j = mk_mbox cap lz [true]) by (unfold get_mb, st0; cbn [mbs]; auto).
     rewrite Em. split; [apply Mok0|]. split.
@@ -1155,15 +1393,19 @@ Proof.
       * destruct (Hstage (S j)) as [_ [PR _]]; [lia|]. apply PR; [lia | | reflexivity].
         rewrite Hg0 by lia. reflexivity.
   - intros i Hi. destruct (Nat.eq_dec i L) as [->|E].
-    + unfold Tok. rewrite Q1, Q2, Q3. repeat split; auto; lia.
+    + unfold Tok. rewrite Q1, Q2, Q3, Q4, Q5, Q6. cbn. repeat split; auto; lia.
     + destruct (Hstage i) as [PT _]; [lia|]. exact PT.
+  - intros j Hj Hc. rewrite Hgm in Hc. destruct (Hbox (S j) Hj) as [cap [E _]].
+    unfold get_mb, st0 in Hc. cbn [mbs] in Hc. rewrite E in Hc. discriminate.
 Qed.
 
 Hypothesis Hcov : cover nt st0 L.
 
 Theorem chain_core : forall sched st,
   nrun nt (ninit nt boxes threads) sched = Some st -> quiescent nt st ->
-  all_terminal st = true /\ main_outcome st L = Some (OErr (EOrig c)).
+  all_terminal st = true /\
+  (main_outcome st L = Some (OErr (EOrig c)) \/
+   (cmode = false /\ ft = L /\ main_outcome st L = Some (OOk (zs N)))).
 Proof.
   intros sched st Hr Hq.
   assert (Hthr : forall t, In t threads ->
@@ -1176,10 +1418,13 @@ Proof.
   assert (Hbx : forall m, In m boxes -> mb_box m = []).
   { intros m Hin. destruct (In_nth _ _ dflt_mb Hin) as [j [Hj E]]. rewrite Hlb in Hj.
     destruct (Hbox j Hj) as [cap [E2 _]]. rewrite E2 in E. subst m. reflexivity. }
-  destruct (Inv_run sched _ _ Inv_init Hr) as [HIst | (s1 & s2 & st1 & -> & H1 & H2 & H3)].
+  destruct (Inv_run sched _ _ Inv_init Hr) as [HIst | [HFst | [(s1 & s2 & st1 & -> & H1 & H2 & H3) | Hfin]]].
   - exfalso. apply (no_deadlock st HIst); auto.
     apply (Wn_reachable nt boxes threads sched st); auto. intros t Hin. apply (Hthr t Hin).
-  - exact (shutdown_theorem nt L boxes threads Hcov Hthr Hbx s1 st1 c H1 H2 s2 st H3 Hq).
+  - exfalso. destruct HFst as [Hsh [e [E1 _]]]. specialize (Hq L). unfold nenabled in Hq.
+    rewrite nth_get in Hq by (rewrite (sh_nt _ Hsh); lia). unfold t_enabled in Hq. rewrite E1 in Hq. discriminate.
+  - destruct (shutdown_theorem nt L boxes threads Hcov Hthr Hbx s1 st1 c H1 H2 s2 st H3 Hq) as [A B]. auto.
+  - destruct Hfin as (A & B & C & D). auto 6.
 Qed.
 End Init.
 
@@ -1242,17 +1487,26 @@ Proof.
   destruct (S j <? length (ch_caps sp)); reflexivity.
 Qed.
 
-Theorem chain_nosav_failure_reaches_caller ft fp c :
-  ft < L -> fp <= ch_N sp ->
-  failure_reaches_caller (chain_net sp true (Some (ft, fp, c)) None) (chain_init sp true (Some (ft, fp, c)) None)
-                         (chain_main sp) (ch_N sp) c.
+Lemma ns_core fault cfault ft fp c (cmode : bool) ck (ccl : bool) cx :
+  ft <= L -> fp <= ch_N sp ->
+  (forall i k, i < L -> fault_at (chain_net sp true fault cfault) i k = if (ft =? i) && (fp =? k) then Some c else None) ->
+  cfault = (if cmode then Some (ck, ccl, cx) else None) ->
+  (if cmode then ft = L /\ ck < ch_N sp /\
+                 c = (if ccl then (if ch_relay sp then C_OUTSIDE else C_GENEXIT) else cx) /\ true = true
+   else True) ->
+  forall sched st, nrun (chain_net sp true fault cfault) (chain_init sp true fault cfault) sched = Some st ->
+    quiescent (chain_net sp true fault cfault) st ->
+    all_terminal st = true /\
+    (main_outcome st (chain_main sp) = Some (OErr (EOrig c)) \/
+     (cmode = false /\ ft = L /\ main_outcome st (chain_main sp) = Some (OOk (zs (ch_N sp))))) /\
+    (forall i t, nth_error (ths st) i = Some t -> is_saver t = false).
 Proof.
-  intros Hft Hfp sched st Hr Hq.
+  intros Hft Hfp Hfault Hcfault Hmode sched st Hr Hq.
   assert (Hmain : chain_main sp = L).
   { unfold chain_main. rewrite Hns. fold L. rewrite sum_first_zero. lia. }
   rewrite Hmain.
   destruct Hv as [HL [Hlen Hcaps]]. fold L in HL.
-  set (nt := chain_net sp true (Some (ft, fp, c)) None) in *.
+  set (nt := chain_net sp true fault cfault) in *.
   assert (Hlb : length (chain_boxes sp) = L) by (unfold chain_boxes; rewrite map_length, seq_length; reflexivity).
   assert (Hkillne : n_kill nt <> []).
   { cbn. intros E. assert (H0 : length (seq 0 (length (ch_caps sp))) = 0) by (rewrite E; reflexivity).
@@ -1276,16 +1530,91 @@ Proof.
       destruct (ns_nth_error i t Hi) as [[Hlt ->] | [-> ->]].
       + destruct i as [|p]; cbn in Hin; [contradiction|]. destruct Hin as [<-|[]]. cbn. lia.
       + cbn in Hin. destruct Hin as [<-|[]]. cbn. lia. }
-  destruct (chain_core L (ch_N sp) (ch_lazy sp) (ch_relay sp) ft fp c nt HL Hft Hfp eq_refl eq_refl Hkillne
-              (chain_boxes sp) (chain_threads sp) Hlb ns_len Hbox
+  assert (Hjoin : forall x, In x (n_join nt) -> x <> L).
+  { intros x Hin. cbn in Hin. unfold chain_join in Hin. apply in_flat_map in Hin. destruct Hin as [y [Hy Hin]].
+    apply in_seq in Hy. fold L in Hy. rewrite ns_nth in Hin. cbn in Hin. destruct Hin as [E|[]]. lia. }
+  assert (Hsav : n_savers nt = []).
+  { cbn. unfold chain_saver_tids. apply flat_map_nil. intros x _. rewrite ns_nth. reflexivity. }
+  destruct (chain_core L (ch_N sp) (ch_lazy sp) (ch_relay sp) ft fp c cmode ck ccl cx nt HL Hft Hfp Hfault Hcfault Hmode
+              Hkillne Hjoin Hsav (chain_boxes sp) (chain_threads sp) Hlb ns_len Hbox
               (fun i Hi => ns_stage i Hi) ns_main Hcov sched st Hr Hq) as [Hat Hout].
-  split; [auto|]. split; [auto|].
+  split; [auto|]. split; [exact Hout|].
   (* there are no savers *)
-  intros i t Hi Hsv. exfalso.
+  intros i t Hi.
   assert (Hsig : sig st = sig (mkSt (chain_boxes sp) (chain_threads sp))).
   { rewrite (sig_run _ _ _ _ Hr). unfold chain_init, ninit. apply sig_start_all. }
   destruct (sig_thread _ _ _ _ Hsig Hi) as [t0 [Ht0 Es]]. cbn [ths] in Ht0.
-  unfold is_saver in Hsv. replace (t_kind t) with (t_kind t0) in Hsv by (unfold tsig in Es; congruence).
-  destruct (ns_nth_error i t0 Ht0) as [[_ ->] | [_ ->]]; cbn in Hsv; discriminate.
+  unfold is_saver. replace (t_kind t) with (t_kind t0) by (unfold tsig in Es; congruence).
+  destruct (ns_nth_error i t0 Ht0) as [[_ ->] | [_ ->]]; reflexivity.
+Qed.
+
+Lemma ns_fail fault cfault ft fp c (cmode : bool) ck (ccl : bool) cx :
+  ft <= L -> fp <= ch_N sp ->
+  (forall i k, i < L -> fault_at (chain_net sp true fault cfault) i k = if (ft =? i) && (fp =? k) then Some c else None) ->
+  cfault = (if cmode then Some (ck, ccl, cx) else None) ->
+  (if cmode then ft = L /\ ck < ch_N sp /\
+                 c = (if ccl then (if ch_relay sp then C_OUTSIDE else C_GENEXIT) else cx) /\ true = true
+   else ft < L) ->
+  failure_reaches_caller (chain_net sp true fault cfault) (chain_init sp true fault cfault) (chain_main sp) (ch_N sp) c.
+Proof.
+  intros Hft Hfp Hfault Hcfault Hmode sched st Hr Hq.
+  assert (Hmode' : if cmode then ft = L /\ ck < ch_N sp /\
+                     c = (if ccl then (if ch_relay sp then C_OUTSIDE else C_GENEXIT) else cx) /\ true = true else True).
+  { destruct cmode; auto. }
+  destruct (ns_core fault cfault ft fp c cmode ck ccl cx Hft Hfp Hfault Hcfault Hmode' sched st Hr Hq) as [Hat [Hout Hnos]].
+  split; [auto|]. split.
+  - destruct Hout as [H | (E1 & E2 & _)]; auto. exfalso. rewrite E1 in Hmode. lia.
+  - intros i t Hi Hsv. rewrite (Hnos i t Hi) in Hsv. discriminate.
+Qed.
+
+(* a plugin stage fails *)
+Theorem chain_nosav_failure_reaches_caller ft fp c :
+  ft < L -> fp <= ch_N sp ->
+  failure_reaches_caller (chain_net sp true (Some (ft, fp, c)) None) (chain_init sp true (Some (ft, fp, c)) None)
+                         (chain_main sp) (ch_N sp) c.
+Proof.
+  intros Hft Hfp. apply (ns_fail (Some (ft, fp, c)) None ft fp c false 0 false 0); auto; try lia.
+Qed.
+
+(* the consumer raises cx while handling chunk k *)
+Theorem chain_nosav_consumer_exception k cx :
+  k < ch_N sp ->
+  failure_reaches_caller (chain_net sp true None (Some (k, false, cx))) (chain_init sp true None (Some (k, false, cx)))
+                         (chain_main sp) (ch_N sp) cx.
+Proof.
+  intros Hk. apply (ns_fail None (Some (k, false, cx)) L 0 cx true k false cx); auto; try lia.
+  intros i j Hi. unfold fault_at. cbn [n_fault chain_net].
+  assert (E : (L =? i) = false) by (apply Nat.eqb_neq; lia). rewrite E. reflexivity.
+Qed.
+
+(* the consumer closes the iterator while handling chunk k *)
+Theorem chain_nosav_consumer_close k cx :
+  k < ch_N sp ->
+  failure_reaches_caller (chain_net sp true None (Some (k, true, cx))) (chain_init sp true None (Some (k, true, cx)))
+                         (chain_main sp) (ch_N sp) (if ch_relay sp then C_OUTSIDE else C_GENEXIT).
+Proof.
+  intros Hk.
+  apply (ns_fail None (Some (k, true, cx)) L 0 (if ch_relay sp then C_OUTSIDE else C_GENEXIT) true k true cx); auto; try lia.
+  intros i j Hi. unfold fault_at. cbn [n_fault chain_net].
+  assert (E : (L =? i) = false) by (apply Nat.eqb_neq; lia). rewrite E. reflexivity.
+Qed.
+
+(* nothing fails: every maximal run delivers all chunks, in order *)
+Theorem chain_nosav_completes :
+  completes (chain_net sp true None None) (chain_init sp true None None) (chain_main sp) (ch_N sp).
+Proof.
+  intros sched st Hr Hq.
+  assert (Hfa : forall c i k, i < L ->
+            fault_at (chain_net sp true None None) i k = if (L =? i) && (0 =? k) then Some c else None).
+  { intros c i k Hi. unfold fault_at. cbn [n_fault chain_net].
+    assert (E : (L =? i) = false) by (apply Nat.eqb_neq; lia). rewrite E. reflexivity. }
+  destruct (ns_core None None L 0 0 false 0 false 0 (le_n _) (Nat.le_0_l _) (Hfa 0) eq_refl I sched st Hr Hq)
+    as [Hat [Hout0 Hnos]].
+  destruct (ns_core None None L 0 1 false 0 false 0 (le_n _) (Nat.le_0_l _) (Hfa 1) eq_refl I sched st Hr Hq)
+    as [_ [Hout1 _]].
+  split; [auto|]. split.
+  - destruct Hout0 as [H0 | (_ & _ & H0)]; [|exact H0].
+    destruct Hout1 as [H1 | (_ & _ & H1)]; rewrite H0 in H1; discriminate.
+  - intros i t Hi Hsv. rewrite (Hnos i t Hi) in Hsv. discriminate.
 Qed.
 End NoSavers.
